@@ -117,7 +117,7 @@ class Scratch:
         harness = os.path.join(VERIF, "kani", f"{key}.rs")
         if not os.path.exists(harness):
             raise RuntimeError(f"no harness file {harness}")
-        vis = "pub(crate) " if key in ("root", "pool", "rewind", "protocol") else ""
+        vis = "pub(crate) " if key in ("root", "pool", "rewind", "protocol", "key") else ""
         with open(self.path(rel), "a") as fh:
             fh.write(f'\n#[cfg(kani)]\n#[path = "{harness}"]\n{vis}mod __verif;\n')
             fh.write(f'#[cfg(kani)]\n#[path = "{self.path("gen", key + "_gen.rs")}"]\nmod __verif_gen;\n')
